@@ -23,6 +23,18 @@ def run(tier, vd):
     r3b = dict(r3)
     r3b["viol"] = [v for v in r3["viol"] if v["rule"] in ("K2", "S2")]
     report_viols(vd, "C10", r3b, {"world": "tcp", "seed": sd}, lambda v: {"rule": v["rule"], "world": "tcp"}, lambda v: "tcp %s %s" % (v["rule"], v["p"]))
+    # fragmenting world: every fragment fits the MTU and non-final fragments carry a multiple of 8 octets (F1), parses (F2 unparsed)
+    exe = build_harness()
+    ff = []
+    for k in range(2 if tier == "quick" else 8):
+        tf = os.path.join(OUT, "traces", "c10.frag.%d.ndjson" % k)
+        run_harness(exe, ["frag-random", "--seed", sd * 100 + 50 + k, "--runs", 150 if tier == "quick" else 1000, "--out", tf])
+        ff.append(tf)
+    r4 = validate_traces("FragTrace", ff, parallel=8)
+    vd.add_validation(r4)
+    r4b = dict(r4)
+    r4b["viol"] = [v for v in r4["viol"] if v["rule"] == "F1" or (v["rule"] == "F2" and "unparsed" in v["p"])]
+    report_viols(vd, "C10", r4b, {"world": "frag", "seed": sd}, lambda v: {"rule": v["rule"], "world": "frag"}, lambda v: "frag %s %s" % (v["rule"], v["p"]))
     vd.cov["samples"].append({"kind": "ingress row with reply frames (source ownership, well-formedness flags from the independent parser)", "events": [e for e in read_ndjson(itf) if e.get("ev") == "row" and e.get("out")][:3]})
 
     def mut(e):
@@ -35,7 +47,7 @@ def run(tier, vd):
     canary_check(vd, "IngressTrace", itf, mut, "E3", "c10.E3", max_runs=1)
     vd.cov["exhaustive"] = True
     vd.assumptions += ["structural well-formedness (E1) is decided by the independent parser of the harness (length fields consistent, option lists terminated, checksums) and only aggregated by the monitors",
-                       "fragment sizes are C12's rule F1, 802.15.4 frame sizes C20's rule W2; DHCP / MLD frames with the unspecified source are exempt as the statement says"]
+                       "IPv4 fragment sizes and alignment are judged here with FragTrace's rule F1 (also part of C12), 802.15.4 frame sizes are C20's rule W2; DHCP / MLD frames with the unspecified source are exempt as the statement says"]
 
 
 def replay(obj, vd):
@@ -44,5 +56,8 @@ def replay(obj, vd):
         ingresscommon.replay(obj, vd, "C10")
     elif w == "neigh":
         netcommon.replay(obj, vd, "C10")
+    elif w == "frag":
+        from checks import c12
+        c12.replay(obj, vd)
     else:
         tcpcommon.replay_generic(obj, vd, "C10")
